@@ -1,0 +1,33 @@
+// Copyright (c) Tailscale Inc & AUTHORS
+// SPDX-License-Identifier: BSD-3-Clause
+
+//go:build verif
+
+package db
+
+// VerifSecret is a deep copy of one secret's stored state.
+type VerifSecret struct {
+	Versions map[uint32]string
+	Active   uint32
+	Latest   uint32
+}
+
+// VerifDump returns a deep copy of the in-memory database contents and the
+// write generation, without taking the database lock. It exists only for
+// verification harnesses (build tag verif), which call it when no other
+// goroutine is inside the database.
+func (db *DB) VerifDump() (map[string]VerifSecret, uint64) {
+	out := make(map[string]VerifSecret, len(db.kv.secrets))
+	for name, s := range db.kv.secrets {
+		vs := VerifSecret{
+			Versions: make(map[uint32]string, len(s.Versions)),
+			Active:   uint32(s.ActiveVersion),
+			Latest:   uint32(s.LatestVersion),
+		}
+		for v, bs := range s.Versions {
+			vs.Versions[uint32(v)] = string(bs)
+		}
+		out[name] = vs
+	}
+	return out, db.kv.gen
+}
